@@ -505,6 +505,111 @@ def _do_integral_scale(m, r, op, tags, rec, where):
     return False
 
 
+# ---------------------------------------------------------------------------
+# constructor keywords vs the same values assigned one by one
+
+
+@st.composite
+def gen_ctor(draw, tier="quick"):
+    cls = draw(st.sampled_from(gens.CLASSES))
+    config = draw(st.sampled_from(CONFIGS))
+    if config in ("latlon", "latlon_temporal"):
+        dim = 3
+    elif config == "temporal":
+        dim = draw(st.sampled_from([2, 3]))
+    else:
+        dim = draw(st.sampled_from(gens.valid_dims(cls)))
+    fdim = dim + (1 if config == "latlon_temporal" else 0)
+    spatial = dim - (1 if config == "temporal" else 0)
+    opt = draw(gens.opt_args(cls, fdim, mode="accuracy"))
+    if cls in ref.TPL and draw(st.booleans()):
+        opt["len_low"] = 0.0  # integral scale can only be prescribed without lower cut-off
+    kw = {"var": draw(logfloat(0.05, 20.0)), "nugget": draw(st.one_of(st.just(0.0), logfloat(1e-3, 5.0)))}
+    scale = draw(st.sampled_from(["len_scale", "len_scale", "integral_scale", "default"]))
+    if scale != "default":
+        kw[scale] = draw(logfloat(0.1, 20.0))
+    n_anis = (3 if config == "latlon_temporal" else dim) - 1
+    if n_anis and draw(st.booleans()):
+        kw["anis"] = [draw(logfloat(0.2, 5.0)) for _ in range(n_anis)]
+    n_ang = dim * (dim - 1) // 2
+    if n_ang and draw(st.booleans()) and not config.startswith("latlon"):
+        kw["angles"] = [draw(st.floats(-3.0, 3.0)) for _ in range(n_ang)]
+    if draw(st.booleans()):
+        kw["rescale"] = draw(logfloat(0.2, 5.0))
+    if cls in ref.TPL and draw(st.integers(0, 3)) == 0:
+        kw["var_raw"] = kw.pop("var")
+    return {"cls": cls, "config": config, "dim": dim, "geo_scale": draw(st.sampled_from([1.0, 57.29577951308232, 6371.0])), "opt": opt, "kw": kw,
+            "order": draw(st.permutations(["opt", "rescale", "scale", "anis", "angles", "nugget"]))}
+
+
+def check_ctor(case, rec):
+    tags = {"model": case["cls"], "config": case["config"], "sub": "ctor"}
+    kw = dict(case["kw"])
+    rec.label(case["config"], case["cls"], "integral_scale" if "integral_scale" in kw else "len_scale", "var_raw" if "var_raw" in kw else "var")
+    cls = getattr(gs, case["cls"])
+    base = {}
+    cfg = case["config"]
+    if cfg in ("latlon", "latlon_temporal"):
+        base.update(latlon=True, geo_scale=case["geo_scale"])
+    if cfg in ("temporal", "latlon_temporal"):
+        base["temporal"] = True
+    if cfg in ("plain", "temporal"):
+        base["dim"] = case["dim"]
+    with quiet():
+        try:
+            m1 = cls(**base, **kw, **case["opt"])
+        except ValueError as e:
+            if "integral_scale" in kw:
+                rec.label("integral_scale_not_setable")  # documented ValueError (JBessel, diverging integrals, ...)
+                return
+            raise Violation(f"constructor rejected in-bounds keywords {kw} {case['opt']}: {e}", dict(tags, kind="ctor_rejects"))
+        m2 = cls(**base)
+        try:
+            for step in case["order"]:
+                if step == "opt":
+                    for k, v in case["opt"].items():
+                        setattr(m2, k, v)
+                elif step == "rescale" and "rescale" in kw:
+                    m2.rescale = kw["rescale"]
+                elif step == "anis" and "anis" in kw:
+                    m2.anis = kw["anis"]
+                elif step == "angles" and "angles" in kw:
+                    m2.angles = kw["angles"]
+                elif step == "nugget":
+                    m2.nugget = kw["nugget"]
+            # the scale depends on rescale / optional arguments, the variance (stored raw) on the scale: assign them last
+            if "len_scale" in kw:
+                m2.len_scale = kw["len_scale"]
+            if "integral_scale" in kw:
+                m2.integral_scale = kw["integral_scale"]
+            if "var_raw" in kw:
+                m2.var_raw = kw["var_raw"]
+            else:
+                m2.var = kw["var"]
+        except ValueError as e:
+            raise Violation(f"constructor accepted {kw} {case['opt']} but the setters reject the same values: {e}", dict(tags, kind="ctor_vs_setters"))
+    # requested values are the final values
+    for name in ("var", "var_raw", "nugget", "len_scale", "rescale"):
+        if name in kw:
+            got = float(getattr(m1, name))
+            require(_feq(got, kw[name], 1e-12), f"{case['cls']}({kw}, {case['opt']}).{name} = {got!r}, requested {kw[name]!r}", dict(tags, kind="ctor_value", attr=name))
+    if "integral_scale" in kw:
+        got = float(m1.integral_scale)
+        require(abs(got - kw["integral_scale"]) <= 1e-3 * kw["integral_scale"], f"{case['cls']}({kw}).integral_scale = {got!r}", dict(tags, kind="ctor_value", attr="integral_scale"))
+    a, b = _real_state(m1), _real_state(m2)
+    diff = []
+    for k in a:
+        if k in ("bounds", "opt"):
+            if _state_diff({k: a[k]}, {k: b[k]}):
+                diff.append(k)
+        elif not _feq(a[k], b[k], 1e-6 if "integral_scale" in kw and k in ("len_scale", "var_raw") else 1e-12):
+            diff.append(k)
+    require(not diff, f"{case['cls']}(**{kw}, **{case['opt']}) differs from the same values assigned by the setters in {diff}: "
+            f"{ {k: a[k] for k in diff} } vs { {k: b[k] for k in diff} }", dict(tags, kind="ctor_vs_setters"))
+    rec.nontrivial(len(kw) >= 4 or "integral_scale" in kw)
+
+
 SUBS = [
+    Sub("ctor", gen_ctor, check_ctor, quick=1200, thorough=30000, shards_quick=4, shards_thorough=8),
     Sub("history", gen_history, check_history, quick=2400, thorough=40000, shards_quick=12, shards_thorough=16, nontrivial=_nontrivial),
 ]
